@@ -46,6 +46,23 @@ CHECKS = {
             'thorough adds a valgrind sample for uninitialised reads.',
             'Sampling only: independence from address-space layout / uninitialised memory is attacked by repeats, setarch -R and '
             'valgrind, never proven.', 'DESIGN.md §3 C10'),
+    'C13': ('fault_enumeration', 'exhaustive syscall-level fault enumeration (strace kill / errno injection at every file-related call of '
+            'every scenario) with a file-system invariant oracle',
+            'Per scenario (mode x input x pre-existing state) a strace census lists every file-related system call after start-up; '
+            'each one is a SIGKILL point and, for calls on the source / temporary / backup / md5 files, an error point for the errnos '
+            'of its kind; after every run the path must hold the original or the complete formatted bytes, the backup must hold the '
+            'original whenever the path changed, and errors that prevent the rewrite must give a non-zero status. Exhaustive over '
+            'the call points of every scenario; thorough adds all errnos and error+kill pairs.',
+            'System-call granularity; strace simulates a failing call by not executing it; short writes and power-loss durability '
+            'are outside the domain. "Original" is read compatibly with C14: the text the run started from.', 'DESIGN.md §3 C13'),
+    'C14': ('exploration', 'bounded-exhaustive history enumeration + Hypothesis-generated long histories (shrinking) against a reference '
+            'model of the backup/md5 protocol and the invariant',
+            'All histories up to length 5 (quick) / 6 (thorough) over user writes and --replace / -o-same runs with two configs are '
+            'executed against the binary; file, backup and md5 file are compared with a reference model and with the directly stated '
+            'invariant after every run; Hypothesis adds histories up to length 24 with runs killed at seven protocol points and '
+            'shrinks a failure to a minimal history.',
+            'Two fixed user texts and two fixed configs; equality of a user write with the text uncrustify last left is treated as '
+            '"not an edit" (indistinguishable by the md5 protocol).', 'DESIGN.md §3 C14'),
 }
 
 ALL = ['C%02d' % i for i in range(1, 21)]
